@@ -5,7 +5,9 @@
    the message the input slice still holds the inverted input (no aliasing message -> input); a second decode of the
    same octets yields the same message (determinism).
    PureE: encoding a well-formed message succeeds, leaves the message unchanged, keeps the caller's buffer prefix and
-   only appends; a second encoding yields the same octets. *)
+   only appends; a second encoding yields the same octets.
+   PureLater: one event for all messages of the PureE events before it, each encoded once more more than a second after
+   its first encoding: `which` lists those whose octets differ (the driver compares octets, the verdict is taken here). *)
 EXTENDS TraceCodecLib
 VARIABLE l
 Invert(s) == [i \in 1..Len(s) |-> 255 - s[i]]
@@ -16,7 +18,7 @@ Check(e) ==
   CASE e.op = "PureD" ->
         IF e.panic THEN "panic"
         ELSE IF e.inp_after # e.inp THEN "input-modified-by-decode"
-        ELSE IF e.ok /\ ~SameProj(e.d_scr, e.d1) THEN "message-aliases-input"
+        ELSE IF ~SameProj(e.d_scr, e.d1) THEN (IF e.ok THEN "message-aliases-input" ELSE "rejected-message-aliases-input")
         ELSE IF e.inp_scr # Invert(e.inp) THEN "input-aliases-message"
         ELSE IF ~SameProj(e.d_twice, e.d1) THEN "decode-not-deterministic"
         ELSE "ok"
@@ -28,6 +30,8 @@ Check(e) ==
         ELSE IF e.again # e.tail THEN "encode-not-deterministic"
         ELSE IF e.held # e.again THEN "encode-result-aliases-library-memory"
         ELSE "ok"
+    [] e.op = "PureLater" ->        \* the messages of the PureE events so far, encoded once more over a second later
+        IF e.which # <<>> THEN "encode-depends-on-the-moment-of-the-call" ELSE "ok"
     [] OTHER -> "ok"
 Info(e) == e.op = "PureE" => (e.tail = Encode(Msgs[MsgByName(e.m)], [mand |-> e.mand, opt |-> e.opt]))
 Init == l = 1 /\ TLCSet(2, 0)
